@@ -258,6 +258,24 @@ func c16Gen(g *core.Gen) {
 			}
 		}
 	}
+	// two files of equal length that exchanged slices at the same offsets (every non-empty proper subset of the slices,
+	// aligned and displaced by half a slice): no recovery block is needed, each file is put together from slices found in
+	// two different places. All of them also as disk twins (buffers as the real filesystem hands them out).
+	for _, sl := range []int{8, 64, 512} {
+		for _, ns := range []int{2, 3} {
+			cfg := scen.P2Config{Sizes: []int{ns * sl, ns * sl}, Slice: sl, Blocks: 2, Class: "uniq"}
+			for mask := 1; mask < 1<<uint(ns)-1; mask++ {
+				var ops []scen.Dmg
+				for k := 0; k < ns; k++ {
+					if mask&(1<<uint(k)) != 0 {
+						ops = append(ops, scen.Dmg{Op: "xchg", F: 0, G: 1, At: k * sl, N: sl})
+					}
+				}
+				g.Emit(&p2Case{Cfg: cfg, Dmg: ops, G: 1, AutoPrune: true, Extra: []string{"c16"}, DiskTwin: true})
+			}
+			g.Emit(&p2Case{Cfg: cfg, Dmg: []scen.Dmg{{Op: "xchg", F: 0, G: 1, At: sl / 2, N: sl}}, G: 1, AutoPrune: true, Extra: []string{"c16"}, DiskTwin: true})
+		}
+	}
 	// files of 16383 / 16384 / 16385 bytes (the span of the format's 16k hash), rewritten by Repair from displaced slices:
 	// bytes inserted at the front / inside a slice / cut, and the content under the second file's name
 	for _, n := range []int{16383, 16384, 16385} {
@@ -319,7 +337,7 @@ func init() {
 	core.Register(&core.Prop{
 		ID:    "C16",
 		Level: "model_checking",
-		Rule: "(later rounds added: checksum-field boundary contents under displacement; zero tails of two bytes x every truncation point; same-size displacement for every a < b; aligned files with an insert in front of the last slice and bytes appended behind it; every 97th scenario as a disk twin; fresh processes that meet 3 (thorough 4) slice sizes in every order; files of 16383..16385 bytes x slice {1024, 4096, 16384} x 5 edits) full product: slice size {4,8,12,16 (quick), +20,32,48 (thorough)} x file length {3s,3s+1,4s-1,5s+s/2} x {insert,delete} x every position 0..len x every edit length 1..2s+1 x second file present/absent, " +
+		Rule: "(later rounds added: checksum-field boundary contents under displacement; zero tails of two bytes x every truncation point; same-size displacement for every a < b; aligned files with an insert in front of the last slice and bytes appended behind it; every 97th scenario as a disk twin; fresh processes that meet 3 (thorough 4) slice sizes in every order; files of 16383..16385 bytes x slice {1024, 4096, 16384} x 5 edits; two equally long files that exchanged every subset of their slices, on disk too) full product: slice size {4,8,12,16 (quick), +20,32,48 (thorough)} x file length {3s,3s+1,4s-1,5s+s/2} x {insert,delete} x every position 0..len x every edit length 1..2s+1 x second file present/absent, " +
 			"plus every ordered pair (content of f under g's name: swap, overwrite, rename); plus slice sizes {2000, 32768, 65536} (thorough also 4096, 16384, 32764, 32772) x 8 edit positions x 5 edit lengths. Recovery files are deleted so that exactly as many blocks remain as slices the edit touches. " +
 			"Oracle: Verify usable == slices found by brute-force scan == edit geometry; Repair must succeed with exactly that many blocks (a found slice that consumed a block would make it fail). non-trivial = edit destroys >=1 and leaves >=1 slice",
 		Assumptions: []string{"content is high-entropy and zero-free so the occurrence set is overlap-free (self-checked per case by the brute-force scan)"},
